@@ -567,15 +567,37 @@ def inline_model(prog, names, fallback=None, depth=0):
                              max_paths=2000)
                 paths = sub.run()
                 rets = set()
+                effects = None
+                pnames = {prm["n"]: a for prm, a in zip(cf.params, args)}
                 for q in paths:
-                    if q.reason != "exit" or not q.returned:
+                    if q.reason != "exit" or not q.returned or q.undetermined:
                         return TOP
                     rets.add(q.ret if not isinstance(q.ret, (list, dict)) else TOP)
+                    eff = {}
                     for t in q.trace:
-                        if t[0] == "store" and ("->" in t[1] or t[1].startswith("*")):
-                            # not pure: give up on precision
-                            return TOP
+                        if t[0] != "store":
+                            continue
+                        k = t[1]
+                        if k.startswith("*") and k[1:] in pnames:
+                            tgt = pnames[k[1:]]
+                            if isinstance(tgt, Ptr) and isinstance(tgt.what, str) and tgt.what[:4] not in ("str:", "arr:") and not tgt.what.startswith("fn:"):
+                                eff[tgt.what] = t[2]
+                            else:
+                                return TOP
+                        elif "->" in k or "." in k:
+                            base = k.split("->")[0].split(".")[0]
+                            if base in pnames or any(l["n"] == base for l in cf.locals):
+                                return TOP      # written through something we cannot name in the caller
+                            eff[k] = t[2]
+                    if effects is None:
+                        effects = eff
+                    elif effects != eff:
+                        return TOP
                 if len(rets) == 1:
+                    for k, v in (effects or {}).items():
+                        if isinstance(v, Alias):
+                            v = TOP
+                        I.write(p, I.canon(p, k), v)
                     return rets.pop()
                 return TOP
         if fallback is not None:
@@ -623,3 +645,31 @@ def succeed_model(prog, overrides=None, fallback=None):
         return TOP
 
     return model
+
+
+def list_overrides(lists, prefix_len="List_length", prefix_at="List_elementAt"):
+    """Overrides for succeed_model: abstract lists.  `lists` maps an abstract list object name
+    (the `what` of a Ptr) to the list of element values."""
+    def length(I, p, node, args):
+        a = args[0]
+        if isinstance(a, Ptr) and a.what in lists:
+            return len(lists[a.what])
+        if a == 0:
+            return 0
+        return TOP
+
+    def element_at(I, p, node, args):
+        a, idx = args[0], args[1]
+        out = strip(node["a"][2])
+        key = lvalue_key(out["e"], I.fn) if isinstance(out, dict) and out.get("k") == "un" and out["op"] == "&" else None
+        if isinstance(a, Ptr) and a.what in lists and isinstance(idx, int):
+            if 0 <= idx < len(lists[a.what]):
+                if key:
+                    I.write(p, I.canon(p, key), lists[a.what][idx])
+                return 0
+            return 0x10b  # KSI_BUFFER_OVERFLOW, what list.c returns for an index out of range
+        if key:
+            I.write(p, I.canon(p, key), TOP)
+        return TOP
+
+    return length, element_at
